@@ -49,6 +49,12 @@ class Deco:
             d["words"].append({"areas": "#", "contexts": "@", "people": "%", "projects": "+"}[k] + name)
         if rng.random() < p * 0.3:
             d["words"].append("#" + str(1000 + uid()))       # all-digit tag: must be dropped everywhere
+        if rng.random() < p * 0.25:
+            # digits joined by underscores / a trailing letter: NOT made only of digits, inherited like any other tag
+            k = rng.choice(["areas", "contexts", "people", "projects"])
+            name = rng.choice([f"{1000 + uid()}_{uid()}", f"{uid()}_{uid()}_{uid()}", f"{1000 + uid()}x", f"0{uid()}_0"])
+            d[k].append(name)
+            d["words"].append({"areas": "#", "contexts": "@", "people": "%", "projects": "+"}[k] + name)
         if rng.random() < p * 0.6:
             r = rng.random()
             name = f"{where}l{uid()}"
@@ -189,7 +195,7 @@ def body(ctx: C.Ctx, proof: C.ProofStatus) -> C.Result:
 
 RULE = (
     "every legal header sequence up to 6 (quick) / 8 (thorough) headers, exhaustively, each with uniquely named random decorations (tags of the four "
-    "kinds, all-digit tags, page/global/ref links, shared and unique property keys, dates) on the title line, a second header line, every section "
+    "kinds, all-digit tags, tags of digits joined by underscores / with a trailing letter, page/global/ref links, shared and unique property keys, dates) on the title line, a second header line, every section "
     "header, in-block comments and the probe notes themselves; one or two probe notes per section; compiled metadata vs the union the statement "
     "prescribes and vs the Lean Zo model; non-trivial = page with at least one section header"
 )
